@@ -83,8 +83,10 @@ static CaseResult run_case(Tape &t, const dif::CaseOpt &opt = dif::CaseOpt())
 		return pkt;
 	};
 	std::vector<Bytes> spoofed, controls;
+	bool cut_pending = false; int cut_mode = 1, n_cut = 0; uint8_t cut_byte = 0; Bytes cut_data;
 	int stream_left = 0, stream_seq = 0, stream_frag = 0;
 	srv.policy = [&](ScriptServer &S, const refproto::Query &q, const sim::Datagram &dg, int step) -> bool {
+		if (cut_pending) { sim::W.residue_mode = cut_mode; sim::W.residue_byte = cut_byte; sim::W.residue_data = cut_data; cut_pending = false; }
 		bool in_tunnel = step == S_P || step == S_DATA;
 		if (S.queries <= honest_prefix && !(tunnel_hostile && in_tunnel)) return false;
 		if (in_tunnel && t.chance(1, 6)) {
@@ -121,9 +123,24 @@ static CaseResult run_case(Tape &t, const dif::CaseOpt &opt = dif::CaseOpt())
 		}
 	};
 	srv.raw_policy = [&](ScriptServer &S, const sim::Datagram &dg) -> bool {
-		if (S.queries <= honest_prefix) return false;
+		if (cut_pending) { sim::W.residue_mode = cut_mode; sim::W.residue_byte = cut_byte; sim::W.residue_data = cut_data; cut_pending = false; }
+		if (S.queries <= honest_prefix && !tunnel_hostile) return false;
 		if (!t.chance(1, 3)) return false;
 		hostile_total++; hostile_at[S_RAWLOGIN]++;
+		if (t.chance(1, 4)) {
+			// a raw frame cut short (1..3 bytes: not even a complete header; or cut inside the body).  It is no frame, so it must be ignored;
+			// in the plain runs the receive buffer holds, behind the datagram, the rest of a complete data frame for this very session -- what
+			// is left there when the complete frame arrived just before -- whose packet must never come out of the client's tun device
+			Bytes X = scn::tun_packet(Bytes{10, 0, 0, 2}, Bytes{10, 0, 0, 1}, t.bytes_of(20 + t.below(60)), (uint16_t)(0x6600 + n_cut));
+			Bytes full = refproto::raw_frame(2, S.userid, refproto::zcompress(X));
+			size_t k = t.chance(3, 4) ? 1 + t.below(3) : 4 + t.below((uint32_t)(full.size() - 5));
+			Bytes head(full.begin(), full.begin() + k), rest(full.begin() + k, full.end());
+			if (!opt.force_residue) { cut_mode = sim::W.residue_mode; cut_byte = sim::W.residue_byte; cut_data = sim::W.residue_data; sim::W.residue_mode = 2; sim::W.residue_data = rest; cut_pending = true; }
+			spoofed.push_back(X); n_cut++;
+			S.reply(dg, head);
+			ms.hit("policy:raw-frame-cut-short");
+			return t.chance(1, 2);
+		}
 		size_t n; switch (t.pick({3, 3, 1})) { case 0: n = t.below(24); break; case 1: n = t.below(2000); break; default: n = 60000 + t.below(5000); break; }
 		Bytes body = t.chance(1, 3) ? refproto::zcompress(scn::tun_packet(Bytes{10, 0, 0, 2}, Bytes{10, 0, 0, 1}, t.bytes_of(std::min<size_t>(n, 3000)), 9)) : t.bytes_of(n);
 		S.reply(dg, refproto::raw_frame((int)t.below(16), t.chance(2, 3) ? S.userid : (int)t.below(16), body));
